@@ -128,13 +128,18 @@ def merge_rules(ck):
                             stmts=loop.body)
     for key, off in (('resid', 'residue_offset'), ('charge_group', 'offset_charge_group')):
         hit = [s for s, c, e in stores if try_fold(s.targets[0].slice) == key and off in u(s.value) and "get('{}', 1)".format(key) in u(s.value) and flow.valid(c)]
-        defs = assignments_to(merge, off)
-        from_last = any("self.nodes[last_node_idx].get('{}', 1)".format(key) == u(d) for d in defs) and any(try_fold(d, default=None) == 0 for d in defs)
+        # the shift is read from the receiver's atom under the very key the new keys are counted from -- compared with the locals substituted, so that it does not
+        # matter through which names (`last_node_idx`, `last_atom`, ..) the atom is reached
+        off_defs = stmts_with_env(merge, lambda s_, off=off: isinstance(s_, ast.Assign) and u(s_.targets[0]) == off)
+        nonzero_offsets = [u(flow.subst(s_.value, e_)) for s_, _c, e_ in offs if try_fold(flow.subst(s_.value, e_), default=None) != 0]
+        texts = [u(flow.subst(s_.value, e_)) for s_, _c, e_ in off_defs]
+        from_last = len(nonzero_offsets) == 1 and "self.nodes[{}].get('{}', 1)".format(nonzero_offsets[0], key) in texts and \
+            any(try_fold(s_.value, default=None) == 0 for s_, _c, _e in off_defs)
         ck.ob('PROV-merge', mod.loc(loop), len(hit) == 1 and from_last,
               '{} of every newcomer atom is shifted, unconditionally, by that of the receiver\'s atom with the highest key'.format(key), key='PROV-merge|shift|' + key)
-    last_defs = assignments_to(merge, 'last_node_idx')
-    ck.ob('PROV-merge', mod.loc(merge), len(last_defs) == 1 and u(last_defs[0]) == 'self.max_node' and any(u(s.value) == 'last_node_idx' for s, c, e in offs),
-          'the "last atom" whose resid/charge group are used is the one with the highest key (same value as the key offset)', key='PROV-merge|last-atom')
+    nonzero_offsets = [u(flow.subst(s_.value, e_)) for s_, _c, e_ in offs if try_fold(flow.subst(s_.value, e_), default=None) != 0]
+    ck.ob('PROV-merge', mod.loc(merge), nonzero_offsets == ['self.max_node'],
+          'the "last atom" whose resid/charge group are used is the one with the highest key (same value as the key offset: `{}`)'.format(nonzero_offsets), key='PROV-merge|last-atom')
     # correspondence filled for every newcomer node, every reference rewritten through it
     corr = [s for s in loop.body if isinstance(s, ast.Assign) and isinstance(s.targets[0], ast.Subscript) and u(s.targets[0].value) == 'correspondence']
     lt = [u(e) for e in loop.target.elts] if isinstance(loop.target, ast.Tuple) else []
@@ -339,7 +344,10 @@ def run(ck):
                     flow.implies(cond, ('atom', [k for k in flow.atoms_of(cond) if k[0] == 'Eq' and 'interaction.atoms' in ' '.join(map(str, k))][0]))[0]
                 why = 'replaces an existing entry with identical atoms'
             elif item.name == 'subgraph' and site == 'append':
-                ok = any('all(' in ' '.join(map(str, k)) and 'in nodes' in ' '.join(map(str, k)) for k in flow.atoms_of(cond)) and \
+                kept = _kept_names(item)
+                kept = kept | {'{}({})'.format(f_, n_) for n_ in kept for f_ in ('set', 'frozenset', 'list', 'tuple')}     # the condition is read with locals substituted
+                kept = kept | {'set({})'.format(n_) for n_ in kept}
+                ok = any('all(' in ' '.join(map(str, k)) and any('in {}'.format(nm) in ' '.join(map(str, k)) for nm in kept) for k in flow.atoms_of(cond)) and \
                     not u(st.value.func.value).startswith('self.')
                 why = 'copies an interaction into the subgraph only when all its atoms are kept'
             else:
@@ -376,7 +384,7 @@ def run(ck):
     to_molecule_fresh_atom(ck, 'ALIAS-copy')
     # edges_between used by subgraph: edges only among kept nodes
     eb = [c for c in walk_local(sg) if isinstance(c, ast.Call) and call_attr(c) == 'edges_between']
-    ck.ob('PROV-subgraph', mod.loc(sg), len(eb) == 1 and [u(a) for a in eb[0].args] == ['nodes', 'nodes'], 'subgraph copies the edges among the kept nodes only',
+    ck.ob('PROV-subgraph', mod.loc(sg), len(eb) == 1 and len(eb[0].args) >= 2 and all(u(a) in _kept_names(sg) for a in eb[0].args[:2]), 'subgraph copies the edges among the kept nodes only',
           key='PROV-subgraph|edges')
     # ------------------------------------------------------------ callers that merge whole molecules keep every operand
     mam = idx.mod('vermouth/processors/merge_all_molecules.py')
@@ -452,3 +460,18 @@ def to_molecule_fresh_atom(ck, rule):
         adds = [c for c in walk_local(tm) if isinstance(c, ast.Call) and call_attr(c) == 'add_node']
         ok = loop is not None and u(loop.iter).startswith('enumerate(self') and len(adds) == 1 and any(adds[0] is x for x in ast.walk(loop)) and unconditional_in(tm, loop.body, na[0])
     ck.ob(rule, mod.loc(tm), ok, 'Block.to_molecule builds each atom from a copy of the defaults made for that atom (inside the loop over the atoms)', key=rule + '|to_molecule-atoms')
+
+
+def _kept_names(sg):
+    """The names under which Molecule.subgraph holds "the nodes that are kept": the parameter itself and every local bound to list / tuple / set / frozenset of it."""
+    param = param_names(sg)[1]
+    names = {param}
+    changed = True
+    while changed:
+        changed = False
+        for st in walk_local(sg):
+            if isinstance(st, ast.Assign) and len(st.targets) == 1 and isinstance(st.targets[0], ast.Name) and isinstance(st.value, ast.Call) and \
+                    call_name(st.value) in ('list', 'tuple', 'set', 'frozenset') and len(st.value.args) == 1 and u(st.value.args[0]) in names and st.targets[0].id not in names:
+                names.add(st.targets[0].id)
+                changed = True
+    return names
